@@ -158,7 +158,8 @@ func Std(kind string, prefix int, data []byte, scratchDir string) (r io.Reader, 
 		_, _ = sr.Seek(int64(prefix), io.SeekStart)
 		return sr, sr.Len, cleanup
 	case "bufio.Reader":
-		br := bufio.NewReaderSize(bytes.NewReader(all), 64)
+		// buffer sizes from tiny to larger than most headers, the default among them
+		br := bufio.NewReaderSize(bytes.NewReader(all), []int{64, 16, 4096, 100, 4096, 65536}[(len(data)/3+prefix)%6])
 		_, _ = br.Discard(prefix)
 		return br, func() int { return -1 }, cleanup
 	case "os.File":
